@@ -223,16 +223,19 @@ structure MinAcc where
   cons : List Constr := []
   utility : UTerms := []
 
+/-- An indicator as a term of an "all of them" row: a variable counts, a constant does not. -/
+def indTermOf : TV → List (Int × VarId) × Nat
+  | .var v => ([(1, v)], 1)
+  | .const _ => ([], 0)
+
 def minStep (name : String) (minStart minEnd : VarId) (acc : MinAcc) (childName : String) (r : PR) : MinAcc :=
   if !r.util then acc else
-  let (it, cnt) := match r.ind with
-    | .var v => ([((1 : Int), v)], 1)
-    | .const _ => ([], 0)
-  let (st, sr) := tvTerm 1 r.start
-  let (et, er) := tvTerm 1 r.stop
-  let c1 : Constr := ⟨name ++ "_min_start_time_constr_child_" ++ childName, .ge, 0 + sr, st ++ [(-1, minStart)]⟩
-  let c2 : Constr := ⟨name ++ "_min_end_time_constr_child_" ++ childName, .le, 0 + er, et ++ [(-1, minEnd)]⟩
-  { indTerms := acc.indTerms ++ it, count := acc.count + cnt,
+  let it := indTermOf r.ind
+  let st := tvTerm 1 r.start
+  let et := tvTerm 1 r.stop
+  let c1 : Constr := ⟨name ++ "_min_start_time_constr_child_" ++ childName, .ge, 0 + st.2, st.1 ++ [(-1, minStart)]⟩
+  let c2 : Constr := ⟨name ++ "_min_end_time_constr_child_" ++ childName, .le, 0 + et.2, et.1 ++ [(-1, minEnd)]⟩
+  { indTerms := acc.indTerms ++ it.1, count := acc.count + it.2,
     cons := acc.cons ++ [c1, c2], utility := acc.utility ++ r.utility }
 
 /-- The per-child loop of `MinExpression::parse`. -/
@@ -287,12 +290,12 @@ def maxStep (acc : MaxAcc) (r : PR) : MaxAcc :=
   if !r.util then acc else
   let s := tvConst r.start
   let e := tvConst r.stop
-  let (subT, subR) := tvTerm 1 r.ind
-  let (stT, stR) := tvTerm s r.ind
-  let (enT, enR) := tvTerm e r.ind
-  { sub := acc.sub ++ subT, subRhs := acc.subRhs + subR,
-    st := acc.st ++ stT, stRhs := acc.stRhs + stR,
-    en := acc.en ++ enT, enRhs := acc.enRhs + enR,
+  let subT := tvTerm 1 r.ind
+  let stT := tvTerm s r.ind
+  let enT := tvTerm e r.ind
+  { sub := acc.sub ++ subT.1, subRhs := acc.subRhs + subT.2,
+    st := acc.st ++ stT.1, stRhs := acc.stRhs + stT.2,
+    en := acc.en ++ enT.1, enRhs := acc.enRhs + enT.2,
     sLo := if s < acc.sLo then s else acc.sLo,
     sHi := if s > acc.sHi then s else acc.sHi,
     eHi := if e > acc.eHi then e else acc.eHi,
@@ -319,11 +322,6 @@ def finishMax (path : Path) (name : String) (children : List PR) : PR × List Va
 def isConst : TV → Bool
   | .const _ => true
   | .var _ => false
-
-/-- An indicator as a term of an "all of them" row: a variable counts, a constant does not. -/
-def indTermOf : TV → List (Int × VarId) × Nat
-  | .var v => ([(1, v)], 1)
-  | .const _ => ([], 0)
 
 def finishLt (path : Path) (name : String) (a b : PR) : PR × List Var × List Constr :=
   if !(a.util && b.util) then (PR.none, [], []) else
